@@ -92,13 +92,18 @@ func (s stakeTx) Validate(ctx *action.Context, tx action.SignedTx) (bool, error)
 		return false, err
 	}
 
-	_, err = st.ValidatorPubKey.GetHandler()
+	h, err := st.ValidatorPubKey.GetHandler()
 	if err != nil {
 		return false, action.ErrInvalidPubkey
 	}
 
 	// the consensus engine accepts ed25519 validator keys only
 	if st.ValidatorPubKey.KeyType != keys.ED25519 {
+		return false, action.ErrInvalidPubkey
+	}
+
+	// the validator address is the address of its consensus key, nobody else's key can be registered under it
+	if !h.Address().Equal(st.ValidatorAddress) {
 		return false, action.ErrInvalidPubkey
 	}
 
